@@ -1338,6 +1338,8 @@ tp_thread_dettach(tpt_p tpt) {
 
 	if (NULL == tpt)
 		return (EINVAL);
+	if (NULL != tpt->tp && tpt == tpt->tp->pvt)
+		return (EINVAL); /* Pool virtual thread have no thread to stop, tp_shutdown() handle it. */
 	/* Not STOP: thread have to leave the loop, drain and call the stop
 	 * hook first, it set STOP by self as its last access. */
 	if (TP_THREAD_STATE_STOP != tpt->state) { /* No thread - nobody will set STOP. */
@@ -1347,7 +1349,13 @@ tp_thread_dettach(tpt_p tpt) {
 		    0 != tpt_is_running(tpt) &&
 		    0 == tpt_msg_send(tpt, NULL, 0, tpt_msg_shutdown_cb, NULL))
 			return (0);
-		tpt->state = TP_THREAD_STATE_STOPING;
+		/* Only from live state: thread may set STOP (its last access)
+		 * after the test above, STOPING would stay forever then. */
+		if (0 == __sync_bool_compare_and_swap(&tpt->state,
+		    TP_THREAD_STATE_RUNNING, TP_THREAD_STATE_STOPING)) {
+			__sync_bool_compare_and_swap(&tpt->state,
+			    TP_THREAD_STATE_STARTING, TP_THREAD_STATE_STOPING);
+		}
 	}
 	return (0);
 }
